@@ -112,6 +112,17 @@ package extractor
 //@   assert at "close(extractor.readChan)" : wg_waited(wg)
 //@   ensures chan_closed(extractor.readChan)
 
+// ---- C01: the reported totals are the counters themselves ----
+//@ func (*Extractor).ReadLines
+//@   pure
+//@   ensures result == s.readLines
+//@ func (*Extractor).MatchedLines
+//@   pure
+//@   ensures result == s.matchedLines
+//@ func (*Extractor).IgnoredLines
+//@   pure
+//@   ensures result == s.ignoredLines
+
 // ---- C01: the ignore set ----
 // (compiled expressions stored anywhere are never nil: Compile returns one or an error)
 //@ nonnil *rare/pkg/expressions.CompiledKeyBuilder
